@@ -397,6 +397,13 @@ def run_xy(ctx, lines, expect):
             dt = None if req is None else req[1]
             r = outcome(lambda: XYData.from_arrays_1d(x, y, dt))
             ctx.count("xy-from", r[0] if r[0] == "ok" else r[1])
+            if kx == "nd" and ky == "nd" and dt is None and x.dtype != y.dtype and r[0] == "ok":
+                ctx.violation(what="from_arrays_1d accepted arrays of different dtype (no dtype requested)", x=str(x.dtype), y=str(y.dtype),
+                              observed=f"{r[1].x_data.dtype} / {r[1].y_data.dtype}", required="TypeError or ValueError")
+                return
+            if r[0] == "ok" and dt is None and ((kx == "nd" and r[1].x_data.dtype != x.dtype) or (ky == "nd" and r[1].y_data.dtype != y.dtype)):
+                ctx.violation(what="from_arrays_1d changed the dtype of an array although none was requested", observed=str(r[1].dtype), required=str(x.dtype))
+                return
             if r[0] == "ok":
                 o = r[1]
                 if not (o.x_data.ndim == 1 and o.y_data.ndim == 1 and len(o.x_data) == len(o.y_data) and o.x_data.dtype == o.y_data.dtype
